@@ -1,0 +1,39 @@
+// SPDX-FileCopyrightText: 2023 The Pion community <https://pion.ly>
+// SPDX-License-Identifier: MIT
+
+//go:build verif
+
+package codecs
+
+// Verification-only accessors (build tag verif). They add no behaviour to normal builds.
+
+// VerifSetVP8PictureID sets the running picture id of a VP8 payloader.
+func VerifSetVP8PictureID(p *VP8Payloader, id uint16) { p.pictureID = id }
+
+// VerifVP8PictureID reads the running picture id of a VP8 payloader.
+func VerifVP8PictureID(p *VP8Payloader) uint16 { return p.pictureID }
+
+// VerifVP9PictureID reads the running picture id of a VP9 payloader.
+func VerifVP9PictureID(p *VP9Payloader) (uint16, bool) { return p.pictureID, p.initialized }
+
+// VerifH265DONL reads the decoding order counter of an H265 payloader.
+func VerifH265DONL(p *H265Payloader) uint16 { return p.donl }
+
+// VerifH264Pending reports the lengths of the held SPS/PPS (-1: none) - diagnostics only.
+func VerifH264Pending(p *H264Payloader) (int, int) {
+	s, q := -1, -1
+	if p.spsNalu != nil {
+		s = len(p.spsNalu)
+	}
+	if p.ppsNalu != nil {
+		q = len(p.ppsNalu)
+	}
+
+	return s, q
+}
+
+// VerifH264FUABufferLen reports the length of the FU-A reassembly buffer - diagnostics only.
+func VerifH264FUABufferLen(p *H264Packet) int { return len(p.fuaBuffer) }
+
+// VerifAV1BufferLen reports the length of the AV1 fragment buffer - diagnostics only.
+func VerifAV1BufferLen(d *AV1Depacketizer) int { return len(d.buffer) }
